@@ -294,6 +294,48 @@ PERM_LEAN = {
 }
 
 
+def check_run_shape(tree):
+  """T-RUN: `run` hands its arguments to `evaluate` through `maybe_sandbox_call`, and the non-sandbox
+  branch of `maybe_sandbox_call` calls the function directly, in the calling thread (the permission
+  scope is thread-local: a worker thread would not see it)."""
+  fn = common.find_func(tree, 'run')
+  rets = [n for n in ast.walk(fn) if isinstance(n, ast.Return)]
+  ok = False
+  for r in rets:
+    c = r.value
+    if (isinstance(c, ast.Call) and isinstance(c.func, ast.Name) and c.func.id == 'maybe_sandbox_call'
+        and c.args and isinstance(c.args[0], ast.Name) and c.args[0].id == 'evaluate'):
+      kw = {k.arg: k.value for k in c.keywords}
+      for name in ('code', 'global_vars', 'permission', 'returns_stdout', 'outputs_intermediate'):
+        if not (isinstance(kw.get(name), ast.Name) and kw[name].id == name):
+          raise TranslatorError(f'run(): `{name}` is not passed through to evaluate unchanged')
+      ok = True
+  if not ok or len(rets) != 1:
+    raise TranslatorError('run(): `return maybe_sandbox_call(evaluate, ...)` not found')
+  body = [n for n in fn.body if not (isinstance(n, ast.Expr) and isinstance(n.value, ast.Constant))]
+  if len(body) != 1:
+    raise TranslatorError('run(): does more than delegating to maybe_sandbox_call')
+  ms = common.find_func(tree, 'maybe_sandbox_call')
+  direct = 'return func(*args, **kwargs)'
+  found_else = False
+  for n in ast.walk(ms):
+    if isinstance(n, ast.If) and n.orelse:
+      tail = n.orelse
+      while len(tail) == 1 and isinstance(tail[0], ast.If):
+        if not tail[0].orelse:
+          break
+        tail = tail[0].orelse
+      if len(tail) == 1 and isinstance(tail[0], ast.Return):
+        if ast.unparse(tail[0]) != direct:
+          raise TranslatorError(
+              'maybe_sandbox_call: the non-sandbox branch is not `return func(*args, **kwargs)`: '
+              + ast.unparse(tail[0])[:80])
+        found_else = True
+  if not found_else:
+    raise TranslatorError('maybe_sandbox_call: non-sandbox branch not found')
+  return True
+
+
 def run():
   classes = concrete_node_classes()
   names = [c.__name__ for c in classes]
@@ -303,6 +345,7 @@ def run():
   check_parse_shape(tree)
   _, etree = common.parse_source(EXECUTION)
   ev = extract_evaluate(etree)
+  check_run_shape(etree)
   _, ptree = common.parse_source(PERMISSIONS)
   check_scope_shape(ptree)
 
